@@ -170,6 +170,46 @@ def build(unit, strict=True, mutate=None, pid=None, degrade=(), extras=()):
             info["status"] = ("proved-in:" + s.arg[0]) if (s.kind == "stub" and not info.get("home_external")) else "assumed (contract stated in unit %s, body not verified there)" % s.arg[0]
             b.stubs.append(info)
             _emit(b, chunks, txt + "\n", "<stub:%s %s>" % (s.arg[0], s.arg[1]), False)
+        elif s.kind == "assumed":
+            # hand-written contracts on functions of /repo whose bodies are NOT brought under contract in any unit:
+            # only the signature is compared with the current source (mechanically); the contract is an assumption
+            rel = s.arg or t.meta["source"]
+            src = source_items(rel)
+            toks, _ = tokenize("\n".join(s.lines))
+            def _sig(item_toks, kw):
+                W.mark_fn(item_toks)
+                body = first_brace_depth0(item_toks, kw)
+                return [x.text for x in item_toks[:body] if x.ann is None and x.text not in ("pub",)]
+            def _check(m, sm, label):
+                cur = RW.apply(sm.toks, rules, {})
+                cur = [x for x in cur]
+                import copy
+                a = _sig([W.Tok(x.text, x.ws, x.kind, x.line) for x in m.toks[m.attrs_end:]], m.kw_idx - m.attrs_end)
+                bsig = _sig([W.Tok(x.text, x.ws, x.kind, x.line) for x in cur], next(i for i, x in enumerate(cur) if x.text == "fn"))
+                if a != bsig:
+                    raise LostAnchor("lost-anchor: assumed contract for %s: signature differs from %s (%s vs %s)" % (label, rel, " ".join(a), " ".join(bsig)))
+                b.stubs.append({"fn": label, "status": "assumed (hand-written contract; body in %s not verified; signature checked against the source)" % rel})
+            for it in split_items(toks):
+                if it.kind == "fn" and it.mode is None:
+                    c = find_item(src, it.key, rel); _check(it, c[0], it.name)
+                    _emit(b, chunks, "#[verifier::external_body]\n" + render(it.toks[it.attrs_end:]).strip() + "\n", "<assumed:%s>" % it.name, False)
+                elif it.kind == "impl":
+                    cands = find_item(src, it.key, rel)
+                    src_members = []
+                    for c in cands: src_members += impl_members(c)[2]
+                    bo, bc, members = impl_members(it)
+                    parts = [render(it.toks[it.kw_idx:bo + 1]).strip()]
+                    for m in members:
+                        if is_ghost_item(m) or m.kind != "fn":
+                            parts.append(render(m.toks).strip()); continue
+                        sm = [x for x in src_members if x.key == m.key]
+                        if not sm: raise LostAnchor("lost-anchor: assumed %s::%s not found in %s" % (it.name, m.name, rel))
+                        _check(m, sm[0], "%s::%s" % (it.name.split(" for ")[-1].strip(), m.name))
+                        parts.append("#[verifier::external_body]\n" + render(m.toks[m.attrs_end:]).strip())
+                    parts.append("}")
+                    _emit(b, chunks, "\n".join(parts) + "\n", "<assumed-impl:%s>" % it.name, False)
+                else:
+                    _emit(b, chunks, render(it.toks) + "\n", "<assumed-other:%s>" % it.name, False)
         elif s.kind == "extract":
             rel, name = s.arg[0], s.arg[1]
             c = [x for x in source_items(rel) if x.name == name and not _is_cfg_test(x)]
